@@ -230,7 +230,7 @@ PROPS = {
         engines=[dict(engine="unreach", pkg=NETC, test="TestVerifUnreach", n_quick=150, n_thorough=1500),
                  dict(engine="pkt", pkg=NETC, test="TestVerifPkt", n_quick=300, n_thorough=3000)],
         corr_ops={"unreach": ["deliver", "churn"], "pkt": ["handle", "walk"]},
-        facts=["unreach_unknown_branch", "unreach_socket_filter", "unreach_dial_cancel", "unreach_notice_fields", "unreach_sent_from"],
+        facts=["unreach_unknown_branch", "unreach_socket_filter", "unreach_dial_cancel", "unreach_notice_fields", "unreach_sent_from", "unreach_hops"],
         trusted=["utils.Broker delivers every published notice to every subscriber in publication order (modelled as such)",
                  "QUIC handshake time-out (15 s) vs notice latency is measured by the mesh engine, not proved"],
         assumptions=["the closing of a listener relative to a send is modelled as listener open / not open at the moment of dispatch"],
